@@ -27,14 +27,15 @@ ASSUMPTIONS = ['time is the agent\'s own reading of time.time_ns (virtual clock)
                'under concurrency only the upper bounds are asserted (count <= fire_count, spacing >= period); '
                'must-collect is asserted single-threaded']
 REQUIRE = {'hits_checked': 5000, 'refused_by_count': 200, 'refused_by_period': 200, 'refused_by_window': 100,
-           'boundary_hits': 50, 'gated_cases': 30, 'hostile_schedules': 30}
+           'boundary_hits': 50, 'gated_cases': 30, 'hostile_schedules': 30,
+           'overlap_cases': 30, 'hits_while_collection_open': 30}
 T0 = 1_700_000_000_000_000_000
 MS = 1_000_000
 
 HOST = '''"""c04 host"""
 
 
-def leaf(gate):
+def leaf(gate, flag=True):
     marker = 0  # @hit
     return marker
 '''
@@ -45,6 +46,7 @@ def plan(tier, seed):
     specs = split_seeds('h%s' % seed, 1600 * n, 10, 'hist')
     specs += split_seeds('g%s' % seed, 96 * n, 4, 'gate')
     specs += split_seeds('s%s' % seed, 16 * n, 2, 'stress')
+    specs += split_seeds('o%s' % seed, 64 * n, 4, 'overlap')
     return specs
 
 
@@ -56,7 +58,7 @@ def parse_int(v, default):
         return default
 
 
-def ref_limiter(times, fc, period_ms, window):
+def ref_limiter(times, fc, period_ms, window, flags=None):
     """Reference limiter: list of booleans (collect?) and the reason for each refusal."""
     out = []
     count, last = 0, None
@@ -68,6 +70,8 @@ def ref_limiter(times, fc, period_ms, window):
             reason = 'window'
         elif last is not None and (t - last) < period_ms * MS:
             reason = 'period'
+        if reason is None and flags is not None and not flags[len(out)]:
+            reason = 'condition'   # rejected by its condition: collects nothing and uses no budget
         if reason is None:
             count += 1
             last = t
@@ -94,7 +98,7 @@ def setup_host(wd, tag):
     return path, hostframe.load(path), hostframe.markers(path)['hit']
 
 
-def build(kind, base, line, cfg, via_wire, tp_id='tp'):
+def build(kind, base, line, cfg, via_wire, tp_id='tp', condition=None):
     from deep.api.tracepoint.tracepoint_config import MetricDefinition
     if via_wire:
         args = {k: str(v) for k, v in cfg.items() if k in ('fire_count', 'fire_period')}
@@ -107,6 +111,8 @@ def build(kind, base, line, cfg, via_wire, tp_id='tp'):
             metrics = [MetricDefinition('m', 'counter')]
         if kind == 'span':
             args['span'] = 'line'
+        if condition:
+            args['condition'] = condition
         return line_trigger(tp_id, base, line, args, [], metrics)
     config = dict(cfg)
     if kind == 'log':
@@ -116,7 +122,7 @@ def build(kind, base, line, cfg, via_wire, tp_id='tp'):
     if kind == 'span':
         config['span'] = 'line'
     return direct_trigger(tp_id, base, line, {'snapshot': 'Snapshot', 'log': 'Log', 'metric': 'Metric',
-                                              'span': 'Span'}[kind], config)
+                                              'span': 'Span'}[kind], config, condition=condition)
 
 
 def case_hist(seed, out, spec, wd):
@@ -166,15 +172,20 @@ def case_hist(seed, out, spec, wd):
     path, mod, line = setup_host(wd, 'h')
     import os
     base = os.path.basename(path)
-    trig = build(kind, base, line, cfg, via_wire)
+    use_cond = r.chance(0.3)
+    flags = [r.chance(0.5) for _ in times] if use_cond else None
+    trig = build(kind, base, line, cfg, via_wire, condition='flag' if use_cond else None)
     rig = Rig(custom={}, host_dir=wd, plugins=[plugins.RecLogger(), plugins.RecMetrics(), plugins.RecSpans()])
     rig.install([trig])
     acted = []   # hit indexes at which the action acted
     hit_no = [-1]
 
+    hit_of_event = {}
+
     def pre(ev, frame, arg):
         if ev.kind == 'line' and ev.line == line and ev.base == base:
             hit_no[0] += 1
+            hit_of_event[ev.seq] = hit_no[0]
 
     def hook(name, callback, payload):
         if callback in ('log', 'metric', 'span_open'):
@@ -184,9 +195,9 @@ def case_hist(seed, out, spec, wd):
     plugins.HOOK[0] = hook
 
     def body():
-        for t_ in times:
+        for i_, t_ in enumerate(times):
             clock.set_virtual(t_)
-            mod.leaf(None)
+            mod.leaf(None, True if flags is None else flags[i_])
 
     try:
         _, exc = rig.run(body)
@@ -194,15 +205,12 @@ def case_hist(seed, out, spec, wd):
         clock.set_virtual(None)
         plugins.HOOK[0] = None
     if kind == 'snapshot':
-        acted = []
-        # map pushes to hits through the snapshot's own timestamp and the order of delivery
-        order = sorted(range(len(times)), key=lambda i: i)
-        for rec in rig.push.pushed:
-            acted.append(_hit_of(rec, times, acted))
+        # each delivery is tagged with the trace event during which it was handed over
+        acted = [hit_of_event.get(rec.ev.seq, -1) if rec.ev is not None else -1 for rec in rig.push.pushed]
     rig.cleanup()
-    reasons = ref_limiter(times, fc, fp, window)
+    reasons = ref_limiter(times, fc, fp, window, flags)
     replay = replay_spec(spec, seed)
-    witness = {'kind': kind, 'fire_count': fc_raw, 'fire_period': fp_raw, 'window': window, 'via_wire': via_wire,
+    witness = {'condition_flags': flags, 'kind': kind, 'fire_count': fc_raw, 'fire_period': fp_raw, 'window': window, 'via_wire': via_wire,
                'times_ms_from_t0': [round((x - T0) / MS, 6) for x in times], 'acted_at_hits': acted,
                'reference': ['collect' if x is None else 'refuse:' + x for x in reasons],
                'agent_log': [short(x, 200) for x in rig.logs[-2:]]}
@@ -216,13 +224,18 @@ def case_hist(seed, out, spec, wd):
     if len(acted) != len(actual):
         out.violation('ratelimit:collected-twice-on-one-hit', 'one hit produced two collections', witness, replay)
     for i, reason in enumerate(reasons):
+        if reason == 'condition' and i in actual:
+            out.violation('condition:collected-on-false', 'hit %d collected although its condition is false' % i,
+                          witness, replay)
+            break
         if reason is not None and i in actual:
             out.violation('ratelimit:exceeded-%s' % reason,
                           'hit %d collected although the %s limit forbids it (fire_count=%r fire_period=%r window=%r)' % (
                               i, reason, fc_raw, fp_raw, window), witness, replay)
             break
         if reason is None and i not in actual:
-            out.violation('ratelimit:due-hit-not-collected',
+            out.violation('condition:rejected-hit-used-budget' if (flags and not all(flags[:i])) else
+                          'ratelimit:due-hit-not-collected',
                           'hit %d is allowed by every limit but did not collect (fire_count=%r fire_period=%r)' % (
                               i, fc_raw, fp_raw), witness, replay)
             break
@@ -233,7 +246,7 @@ def case_hist(seed, out, spec, wd):
         if x is not None:
             out.count('refused_by_' + x)
     out.count('boundary_hits', boundary)
-    out.case({'k': kind, 'fc': fc_raw, 'fp': fp_raw, 'w': win_kind, 'wire': via_wire,
+    out.case({'k': kind, 'fc': fc_raw, 'fp': fp_raw, 'w': win_kind, 'wire': via_wire, 'fl': flags,
               'dt': [b - a for a, b in zip(times, times[1:])], 'win': [window[0] - T0 if window[0] else 0,
                                                                       window[1] - T0 if window[1] else 0]},
              nontrivial=any(x is not None for x in reasons), sample={k: witness[k] for k in (
@@ -412,7 +425,135 @@ def case_stress(seed, out, spec, wd):
     out.case({'stress': seed, 'n': n, 'fc': fc}, nontrivial=True, sample=witness)
 
 
-CASES = {'hist': case_hist, 'gate': case_gate, 'stress': case_stress}
+class HoldGate:
+    """Host local whose __str__ keeps the collection open until the monitor releases it."""
+
+    def __init__(self, hold):
+        self.hold = hold
+        self.parked = threading.Event()
+        self.release = threading.Event()
+        self.timed_out = False
+        self._seen = False
+
+    def __str__(self):
+        if self.hold and not self._seen:
+            self._seen = True
+            self.parked.set()
+            if not self.release.wait(4):
+                self.timed_out = True
+        return 'hold'
+
+    __repr__ = __str__
+
+
+def case_overlap(seed, out, spec, wd):
+    """Collections of earlier hits are still open while later hits (at later clock values) reach the tracepoint."""
+    r = Rng('c04o', seed)
+    plugins.reset()
+    import os
+    path, mod, line = setup_host(wd, 'o')
+    base = os.path.basename(path)
+    fc = r.pick([-1, -1, 2, 3, 5])
+    fp = r.pick([0, 1000, 1000, 100])
+    kind = r.pick(['snapshot', 'snapshot', 'log'])
+    cfg = {'fire_count': fc, 'fire_period': fp}
+    if kind == 'log':
+        cfg['log_msg'] = 'o {gate}'
+        trig = direct_trigger('tp', base, line, 'Log', cfg)
+    else:
+        trig = direct_trigger('tp', base, line, 'Snapshot', cfg)
+    rig = Rig(custom={}, host_dir=wd, plugins=[plugins.RecLogger()])
+    rig.install([trig])
+    n = r.randrange(3, 7)
+    steps = []
+    t = 0
+    for i in range(n):
+        if i:
+            t += r.pick([0, 1, fp // 10 if fp else 5, fp - 1 if fp else 3, fp, fp + 1, fp * 3 // 2 + 7, fp * 2 + 100])
+        steps.append({'t_ms': max(t, 0), 'hold': r.chance(0.5), 'release_after': None})
+    for i, st in enumerate(steps):
+        if st['hold']:
+            st['release_after'] = r.randrange(i, n) if r.chance(0.7) else n - 1
+    gates = [HoldGate(st['hold']) for st in steps]
+    go = [threading.Event() for _ in steps]
+    done = [threading.Event() for _ in steps]
+    logged_at = []
+
+    def hook(name, callback, payload):
+        if callback == 'log':
+            logged_at.append(clock.time_ns())
+
+    plugins.HOOK[0] = hook
+
+    def worker(i):
+        go[i].wait(30)
+        try:
+            mod.leaf(gates[i], True)
+        finally:
+            done[i].set()
+
+    stuck = []
+
+    def body():
+        ths = [threading.Thread(target=worker, args=(i,)) for i in range(n)]
+        for th in ths:
+            th.start()
+        for i, st in enumerate(steps):
+            clock.set_virtual(T0 + st['t_ms'] * MS)
+            go[i].set()
+            # settle: the thread finished its hit, or is parked inside its collection
+            end = time.monotonic() + 3
+            while not done[i].is_set() and not gates[i].parked.is_set() and time.monotonic() < end:
+                time.sleep(0.001)
+            if not done[i].is_set() and not gates[i].parked.is_set():
+                stuck.append(i)   # e.g. an implementation that serialises collections: only upper bounds are judged
+            for j, sj in enumerate(steps[:i + 1]):
+                if sj['hold'] and sj['release_after'] == i:
+                    gates[j].release.set()
+                    done[j].wait(5)
+        for g in gates:
+            g.release.set()
+        for th in ths:
+            th.join(20)
+        return any(th.is_alive() for th in ths)
+
+    try:
+        hung, exc = rig.run(body)
+    finally:
+        clock.set_virtual(None)
+        plugins.HOOK[0] = None
+    if kind == 'snapshot':
+        got_ts = sorted(rec.snapshot.ts_nanos for rec in rig.push.pushed)
+    else:
+        got_ts = sorted(logged_at)
+    rig.cleanup()
+    replay = replay_spec(spec, seed)
+    witness = {'fire_count': fc, 'fire_period_ms': fp, 'kind': kind, 'steps': steps,
+               'collections_at_ms': [round((x - T0) / MS, 3) for x in got_ts], 'threads_that_blocked': stuck}
+    if hung:
+        out.inconc('C04 overlap threads did not finish')
+        return
+    if fc != -1 and len(got_ts) > fc:
+        out.violation('ratelimit:concurrent-count-exceeded', '%d collections with fire_count=%d while earlier '
+                                                             'collections were still open' % (len(got_ts), fc),
+                      witness, replay)
+    for a, b in zip(got_ts, got_ts[1:]):
+        if (b - a) < fp * MS:
+            out.violation('ratelimit:concurrent-period-violated',
+                          'collections %.3f ms apart with fire_period=%d ms (an earlier collection was still open)' % (
+                              (b - a) / MS, fp), witness, replay)
+            break
+    if not got_ts:
+        out.violation('ratelimit:due-hit-not-collected', 'no hit collected although the first one is within every limit',
+                      witness, replay)
+    open_overlaps = sum(1 for i, st in enumerate(steps) if st['hold'] and st['release_after'] is not None and
+                        st['release_after'] > i)
+    out.count('overlap_cases')
+    out.count('hits_while_collection_open', open_overlaps)
+    out.case({'fc': fc, 'fp': fp, 'k': kind, 'steps': steps}, nontrivial=open_overlaps > 0, sample=witness)
+
+
+CASES = {'hist': case_hist, 'gate': case_gate, 'stress': case_stress, 'overlap': case_overlap}
 
 
 def run_shard(spec, out):
